@@ -254,7 +254,7 @@ def run_float(ctx, n):
             ctx.cls("float:quatprod_integer_factor")
         PQ = R.quatprod(P2arg, Q)
         ctx.mon("float.homomorphism")
-        e = np.abs(R.Exp_SO3_quat(PQ) - R.Exp_SO3_quat(P2) @ R.Exp_SO3_quat(Q)).max()
+        e = np.abs(R.Exp_SO3_quat(np.asarray(PQ, dtype=float)) - R.Exp_SO3_quat(P2) @ R.Exp_SO3_quat(Q)).max() if np.any(PQ) else np.inf
         if e > 4 * tol:
             ctx.violation("quatprod/Exp_SO3_quat", "Exp(P o Q) differs from Exp(P) Exp(Q)", {"P": P2, "Q": Q, "err": e})
         # T * T_inv = I  (both variants)
